@@ -125,3 +125,4 @@ def run(ck, w):
             ck.fail(o, bk.name, "merge does not read the basis", "MergeTrees::new first argument derives from %s" % flow.origin_summary(a0), mt[0].site())
         else:
             ck.ok(o, sites=[sn[0].site()])
+    common.reuse_exactly_conditioned(ck, w, "C14.2d")
